@@ -182,10 +182,22 @@ fn location_of(up: NonNull<CaoLangObject>) -> *mut Value {
     unsafe { up.as_ref().as_upvalue().map(|u| u.location).unwrap_or(std::ptr::null_mut()) }
 }
 
+/// a closed upvalue holds its own copy: its location is the address of its own value field
+/// (checked by pointer identity; overwriting the dead stack slot and reading back made the
+/// formula explode - DESIGN 0)
+fn is_closed(up: NonNull<CaoLangObject>) -> bool {
+    unsafe {
+        match up.as_ref().as_upvalue() {
+            Some(u) => std::ptr::eq(u.location as *const Value, &u.value as *const Value),
+            None => false,
+        }
+    }
+}
+
 /// RegisterUpvalue in a frame at OFFSET capturing local INDEX, then write/read through it from a
 /// callee frame, then close it: by-reference capture with the right identity and lifetime
 pub fn capture_write_read_close<S: Src, const OFFSET: u32, const INDEX: u8>(s: &mut S) {
-    let mut rig = Rig::new(14, 4, 1 << 16);
+    let mut rig = Rig::new(8, 3, 1 << 16);
     let _f = fillers(&mut rig, s, OFFSET);
     let o = OFFSET as usize;
     let (l0, l1) = (s.i64(), s.i64());
@@ -231,6 +243,65 @@ pub fn capture_write_read_close<S: Src, const OFFSET: u32, const INDEX: u8>(s: &
     s.reached("fx.capture_write_read_close");
 }
 
+/// one closure capturing local INDEX of a frame at OFFSET: the upvalue aliases exactly that
+/// variable; a write through it from the closure's own frame reaches the variable (and nothing
+/// else), a read sees it
+pub fn capture_one<S: Src, const OFFSET: u32, const INDEX: u8>(s: &mut S) {
+    let mut rig = Rig::new(9, 3, 1 << 16);
+    let _f = fillers(&mut rig, s, OFFSET);
+    let o = OFFSET as usize;
+    let (l0, l1) = (s.i64(), s.i64());
+    rig.push(Value::Integer(l0));
+    rig.push(Value::Integer(l1));
+    let c = new_closure(&mut rig);
+    rig.push(Value::Object(c));
+    let mut ip = 0usize;
+    assert!(instr::register_upvalue(&mut rig.vm, &[INDEX, 1], &mut ip).is_ok(), "C06.fx.register_ok");
+    assert!(ip == 2, "C06.fx.register_consumes_operands");
+    let up = upvalue_of(c, 0).unwrap();
+    let slot = o + INDEX as usize;
+    let expect = unsafe { rig.vm.runtime_data.verif_stack().as_slice().as_ptr().add(slot) };
+    assert!(location_of(up) as *const Value == expect, "C06.fx.upvalue_aliases_the_enclosing_frames_local");
+    let base = rig.stack_len() as u32;
+    assert!(rig.vm.runtime_data.verif_push_frame(0, 0, base, Some(c)), "harness.frame");
+    let w = s.i64();
+    rig.push(Value::Integer(w));
+    let mut ip = 0usize;
+    assert!(instr::write_upvalue(&mut rig.vm, &u32bytes(0), &mut ip).is_ok(), "C06.fx.write_upvalue_ok");
+    assert!(same(rig.stack_get(slot), Value::Integer(w)), "C06.fx.write_reaches_the_enclosing_variable");
+    let other = if INDEX == 0 { o + 1 } else { o };
+    assert!(
+        same(rig.stack_get(other), Value::Integer(if INDEX == 0 { l1 } else { l0 })),
+        "C06.fx.other_variable_untouched"
+    );
+    let mut ip = 0usize;
+    assert!(instr::read_upvalue(&mut rig.vm, &u32bytes(0), &mut ip).is_ok(), "C06.fx.read_upvalue_ok");
+    assert!(same(rig.stack_get(base as usize), Value::Integer(w)), "C06.fx.read_sees_the_variable");
+    std::mem::forget(rig);
+    s.reached("fx.capture_one");
+}
+
+/// two closures created in the same scope capture the same local: they share one upvalue
+pub fn siblings_share<S: Src, const OFFSET: u32>(s: &mut S) {
+    let mut rig = Rig::new(8, 3, 1 << 16);
+    let _f = fillers(&mut rig, s, OFFSET);
+    let x = s.i64();
+    rig.push(Value::Integer(x));
+    let c1 = new_closure(&mut rig);
+    let c2 = new_closure(&mut rig);
+    rig.push(Value::Object(c1));
+    let mut ip = 0usize;
+    assert!(instr::register_upvalue(&mut rig.vm, &[0, 1], &mut ip).is_ok(), "C06.fx.register_ok");
+    rig.push(Value::Object(c2));
+    let mut ip = 0usize;
+    assert!(instr::register_upvalue(&mut rig.vm, &[0, 1], &mut ip).is_ok(), "C06.fx.register_ok");
+    let u1 = upvalue_of(c1, 0);
+    let u2 = upvalue_of(c2, 0);
+    assert!(u1.is_some() && u1 == u2, "C06.fx.sibling_closures_share_the_variable");
+    std::mem::forget(rig);
+    s.reached("fx.siblings_share");
+}
+
 /// the scope of the captured variable ends (it is the top of the stack): the closure keeps its
 /// own copy of the last value, later writes to the dead slot do not reach it
 pub fn close_keeps_value<S: Src, const OFFSET: u32>(s: &mut S) {
@@ -247,8 +318,8 @@ pub fn close_keeps_value<S: Src, const OFFSET: u32>(s: &mut S) {
     assert!(!rig.vm.runtime_data.verif_open_upvalues().is_null(), "C06.fx.upvalue_is_open");
     assert!(instr::close_upvalues(&mut rig.vm).is_ok(), "C06.fx.close_ok");
     assert!(rig.vm.runtime_data.verif_open_upvalues().is_null(), "C06.fx.no_open_upvalue_left");
-    let y = s.i64();
-    let _ = rig.vm.runtime_data.verif_stack().set(o, Value::Integer(y));
+    let _ = o;
+    assert!(is_closed(up), "C06.fx.closed_upvalue_no_longer_points_into_the_stack");
     let v = unsafe { *location_of(up) };
     assert!(same(v, Value::Integer(x)), "C06.fx.closure_keeps_last_value_after_scope_exit");
     std::mem::forget(rig);
@@ -276,6 +347,7 @@ pub fn return_closes_upvalues<S: Src>(s: &mut S) {
     assert!(rig.stack_len() == 2, "C06.fx.frame_removed");
     assert!(same(rig.stack_get(0), Value::Integer(f0)), "C06.fx.caller_slot_untouched");
     assert!(same(rig.stack_get(1), Value::Object(c)), "C06.fx.closure_returned");
+    assert!(is_closed(up), "C06.fx.closed_upvalue_no_longer_points_into_the_stack");
     let v = unsafe { *location_of(up) };
     assert!(same(v, Value::Integer(x)), "C06.fx.closure_keeps_last_value_after_scope_exit");
     std::mem::forget(rig);
@@ -286,7 +358,7 @@ pub fn return_closes_upvalues<S: Src>(s: &mut S) {
 /// order), then the function returns: both closures keep their own copy of the last value, no
 /// upvalue is left pointing into the dead frame
 pub fn two_locals_then_return<S: Src, const ORDER: u8>(s: &mut S) {
-    let mut rig = Rig::new(14, 4, 1 << 16);
+    let mut rig = Rig::new(8, 3, 1 << 16);
     let f0 = s.i64();
     rig.push(Value::Integer(f0));
     assert!(rig.vm.runtime_data.verif_push_frame(5, 6, 1, None), "harness.frame");
@@ -309,10 +381,9 @@ pub fn two_locals_then_return<S: Src, const ORDER: u8>(s: &mut S) {
     let mut ip = 50usize;
     assert!(instr::instr_return(&mut rig.vm, &mut ip).is_ok(), "C06.fx.return_ok");
     assert!(rig.vm.runtime_data.verif_open_upvalues().is_null(), "C06.fx.return_closes_the_frames_upvalues");
-    // the frame is gone: overwrite the dead slots
-    let _ = rig.vm.runtime_data.verif_stack().set(1, Value::Integer(7777));
-    rig.push(Value::Integer(8888));
-    rig.push(Value::Integer(9999));
+    // the frame is gone: neither upvalue may still point at its dead slots
+    assert!(is_closed(ua), "C06.fx.first_upvalue_closed_by_return");
+    assert!(is_closed(ub), "C06.fx.second_upvalue_closed_by_return");
     let va = unsafe { *location_of(ua) };
     let vb = unsafe { *location_of(ub) };
     let (ea, eb) = if ORDER == 0 { (a, b) } else { (b, a) };
@@ -325,7 +396,7 @@ pub fn two_locals_then_return<S: Src, const ORDER: u8>(s: &mut S) {
 /// a lower slot stays captured and open while a higher slot is captured and its scope ends
 /// (CloseUpvalue with the higher slot on top): exactly the higher one is closed
 pub fn inner_scope_closes_only_its_variable<S: Src>(s: &mut S) {
-    let mut rig = Rig::new(14, 4, 1 << 16);
+    let mut rig = Rig::new(8, 3, 1 << 16);
     let (a, b) = (s.i64(), s.i64());
     rig.push(Value::Integer(a)); // slot 0, outer scope
     let ca = new_closure(&mut rig);
@@ -344,8 +415,8 @@ pub fn inner_scope_closes_only_its_variable<S: Src>(s: &mut S) {
     let base = unsafe { rig.vm.runtime_data.verif_stack().as_slice().as_ptr() };
     assert!(location_of(ub) as *const Value != unsafe { base.add(1) }, "C06.fx.inner_variable_is_closed_at_its_scope_end");
     assert!(location_of(ua) as *const Value == base, "C06.fx.outer_variable_stays_shared_while_its_scope_lives");
-    // next iteration overwrites slot 1: the closed copy is unaffected
-    let _ = rig.vm.runtime_data.verif_stack().set(1, Value::Integer(4242));
+    assert!(is_closed(ub), "C06.fx.inner_variable_is_closed_at_its_scope_end");
+    assert!(!is_closed(ua), "C06.fx.outer_variable_stays_shared_while_its_scope_lives");
     assert!(same(unsafe { *location_of(ub) }, Value::Integer(b)), "C06.fx.each_iteration_captures_a_distinct_variable");
     std::mem::forget(rig);
     s.reached("fx.inner_scope_closes_only_its_variable");
@@ -376,7 +447,71 @@ pub fn globals<S: Src>(s: &mut S) {
     s.reached("fx.globals");
 }
 
+/// probes (cost bisection of the upvalue harnesses)
+pub fn probe_up<S: Src, const STAGE: u8>(s: &mut S) {
+    let mut rig = Rig::new(6, 2, 1 << 16);
+    let x = s.i64();
+    rig.push(Value::Integer(x));
+    let c = new_closure(&mut rig);
+    rig.push(Value::Object(c));
+    let mut ip = 0usize;
+    assert!(instr::register_upvalue(&mut rig.vm, &[0, 1], &mut ip).is_ok(), "C06.fx.register_ok");
+    let up = upvalue_of(c, 0).unwrap();
+    let expect = unsafe { rig.vm.runtime_data.verif_stack().as_slice().as_ptr() };
+    assert!(location_of(up) as *const Value == expect, "C06.fx.upvalue_aliases_the_enclosing_frames_local");
+    if STAGE >= 1 {
+        let v = unsafe { *location_of(up) };
+        assert!(same(v, Value::Integer(x)), "C06.fx.read_sees_the_variable");
+    }
+    if STAGE >= 5 {
+        // write (and read) through the upvalue from the closure's own frame
+        assert!(rig.vm.runtime_data.verif_push_frame(0, 0, 1, Some(c)), "harness.frame");
+        let w = s.i64();
+        rig.push(Value::Integer(w));
+        let mut ip = 0usize;
+        assert!(instr::write_upvalue(&mut rig.vm, &u32bytes(0), &mut ip).is_ok(), "C06.fx.write_upvalue_ok");
+        assert!(same(rig.stack_get(0), Value::Integer(w)), "C06.fx.write_reaches_the_enclosing_variable");
+        if STAGE >= 6 {
+            let mut ip = 0usize;
+            assert!(instr::read_upvalue(&mut rig.vm, &u32bytes(0), &mut ip).is_ok(), "C06.fx.read_upvalue_ok");
+            assert!(same(rig.stack_get(1), Value::Integer(w)), "C06.fx.read_sees_the_variable");
+        }
+        std::mem::forget(rig);
+        s.reached("fx.probe_up");
+        return;
+    }
+    if STAGE >= 2 {
+        assert!(instr::close_upvalues(&mut rig.vm).is_ok(), "C06.fx.close_ok");
+    }
+    if STAGE >= 3 {
+        let v = unsafe { *location_of(up) };
+        assert!(same(v, Value::Integer(x)), "C06.fx.closure_keeps_last_value_after_scope_exit");
+    }
+    if STAGE >= 4 {
+        let y = s.i64();
+        let _ = rig.vm.runtime_data.verif_stack().set(0, Value::Integer(y));
+        let v = unsafe { *location_of(up) };
+        assert!(same(v, Value::Integer(x)), "C06.fx.closure_keeps_last_value_after_scope_exit");
+    }
+    std::mem::forget(rig);
+    s.reached("fx.probe_up");
+}
+
 crate::harnesses! {
+    #[kani::stub(alloc::fmt::format, crate::stub_format)]
+    fx_probe_up0 / 18 => probe_up::<_, 0>;
+    #[kani::stub(alloc::fmt::format, crate::stub_format)]
+    fx_probe_up1 / 18 => probe_up::<_, 1>;
+    #[kani::stub(alloc::fmt::format, crate::stub_format)]
+    fx_probe_up2 / 18 => probe_up::<_, 2>;
+    #[kani::stub(alloc::fmt::format, crate::stub_format)]
+    fx_probe_up3 / 18 => probe_up::<_, 3>;
+    #[kani::stub(alloc::fmt::format, crate::stub_format)]
+    fx_probe_up4 / 18 => probe_up::<_, 4>;
+    #[kani::stub(alloc::fmt::format, crate::stub_format)]
+    fx_probe_up5 / 18 => probe_up::<_, 5>;
+    #[kani::stub(alloc::fmt::format, crate::stub_format)]
+    fx_probe_up6 / 18 => probe_up::<_, 6>;
     #[kani::stub(alloc::fmt::format, crate::stub_format)]
     fx_c01_locals_off0 / 18 => locals::<_, 0>;
     #[kani::stub(alloc::fmt::format, crate::stub_format)]
@@ -395,6 +530,18 @@ crate::harnesses! {
     fx_c04_call_missing_argument / 18 => call_errors::<_, 2>;
     #[kani::stub(alloc::fmt::format, crate::stub_format)]
     fx_c04_call_stack_full / 18 => call_errors::<_, 3>;
+    #[kani::stub(alloc::fmt::format, crate::stub_format)]
+    fx_c06_capture_one_off0_idx0 / 18 => capture_one::<_, 0, 0>;
+    #[kani::stub(alloc::fmt::format, crate::stub_format)]
+    fx_c06_capture_one_off0_idx1 / 18 => capture_one::<_, 0, 1>;
+    #[kani::stub(alloc::fmt::format, crate::stub_format)]
+    fx_c06_capture_one_off2_idx1 / 18 => capture_one::<_, 2, 1>;
+    #[kani::stub(alloc::fmt::format, crate::stub_format)]
+    fx_c06_capture_one_off3_idx0 / 18 => capture_one::<_, 3, 0>;
+    #[kani::stub(alloc::fmt::format, crate::stub_format)]
+    fx_c06_siblings_share_off0 / 18 => siblings_share::<_, 0>;
+    #[kani::stub(alloc::fmt::format, crate::stub_format)]
+    fx_c06_siblings_share_off2 / 18 => siblings_share::<_, 2>;
     #[kani::stub(alloc::fmt::format, crate::stub_format)]
     fx_c06_capture_off0_idx0 / 18 => capture_write_read_close::<_, 0, 0>;
     #[kani::stub(alloc::fmt::format, crate::stub_format)]
